@@ -60,3 +60,8 @@ CORPUS = [
       "        self.target_temperature = (payload[2] & 0xF) + 16.0 + (0.5 if payload[2] & 0x10 else 0.0)", "S"),
     M("n-turbo-or", C, "        self.turbo = bool(payload[8] & 0x20)", "        self.turbo = bool(payload[8] & 0x20) or False", "S"),
 ]
+# round 5 (C11.d): every way through the StateResponse branch stores every attribute
+CORPUS += [
+    M("state-update-skipped-when-same-power", D, "            self._power_state = res.power_on\n", "            if res.power_on == self._power_state and res.fan_speed == self._fan_speed:\n                return\n            self._power_state = res.power_on\n"),
+    M("n-state-update-logged-first", D, "            self._power_state = res.power_on\n", "            changed = res.power_on != self._power_state\n            self._power_state = res.power_on\n            if changed:\n                _LOGGER.debug(\"Power state changed.\")\n", "S"),
+]
